@@ -23,21 +23,27 @@ theorem mem_zip_padTo {as : List Nat} {l : List (Option Nat)} {n a ll : Nat} (hm
 /-- the own nodes: the cell and everything behind the host's nodes -/
 def ownN (h : NNet) (c : Nat) (x : Nat) : Prop := x = c ∨ h.net.nodes.size ≤ x
 
-theorem substituteCore_certR (h : NNet) (c : Nat) (m : NNet) (sh : Shape) (dn : Nat)
+/-- the certificate for the phases of `substituteCore`, run with the cell kept as the copy of node `dn` of the implementation
+    (the designated cell; or, for an implementation without designated cell, the *virtual* run with `dn` = the number of nodes
+    of the implementation: the cell stays in the circuit as an isolated node of kind `""`) -/
+theorem substituteCore_certP (h : NNet) (c : Nat) (m : NNet) (sh : Shape) (dn : Nat)
     (hw : WFr h) (mw : WF m) (hc : c < h.net.nodes.size) (hio : c ∉ h.net.io) (hcf : (h.net.node c).isFork = false)
-    (hs : implShape m = some sh) (hd : sh.des = some dn)
+    (hs : implShape m = some sh) (hd : dn < m.net.nodes.size → sh.des = some dn) (hdnf : (m.net.node dn).isFork = false)
     (hdn : dn ∉ m.net.io) (hnd : m.net.io.Nodup) (hps : ∀ p ∈ m.net.io, isSeqKind (m.net.node p).kind = false)
     (hpf : ∀ p ∈ m.net.io, 0 < (m.net.node p).ins.length → 0 < (m.net.node p).outs.length → (m.net.node p).isFork = true)
     (hni : NoIgnored m (sh.inPorts.zip (padTo (h.net.node c).ins sh.inPorts.length)))
-    (h5 : NNet) (map : Array (Option Nat)) (dang : List (Option Nat)) (he : substituteCore h c m = some (h5, map, dang)) :
+    (h5 : NNet) (map : Array (Option Nat)) (dang : List (Option Nat))
+    (h2 : NNet) (net4 net5 : Net) (ren : Option Nat → Option Nat)
+    (hil : (h.net.node c).ins.length ≤ sh.inPorts.length) (hol : (h.net.node c).outs.length ≤ sh.outLines.length)
+    (hfold : (List.range m.net.nodes.size).foldlM (addImplNode m (h.names.getD c "") (some dn)) (phase1 h c m (some dn)) = some (h2, map))
+    (hci : connectIns m map (sh.inPorts.zip (padTo (h.net.node c).ins sh.inPorts.length)) (phase3 m map h2, id) = some (net4, ren))
+    (hco : connectOuts m map (sh.outLines.zip ((padTo (h.net.node c).outs sh.outLines.length).map ren)) (net4, []) = some (net5, dang))
+    (e : h5 = { h2 with net := net5 }) :
     SubstCert h c m sh dn map h5 ∧
     (∀ x, x < h5.net.nodes.size → ownN h c x → noTrail (h5.net.node x).ins = true ∧ noTrail (h5.net.node x).outs = true) := by
-  obtain ⟨h2, net4, ren, net5, hil, hol, hfold, hci, hco, e⟩ := substituteCore_inv h c m sh hs h5 map dang he
-  obtain ⟨hdnlt, hdnf⟩ := implShape_des m mw sh dn hs hd
-  rw [hd] at hfold
   have iv : NodeInv h c m dn (h.names.getD c "") (List.range m.net.nodes.size) (h2, map) := by
     have := nodeInv_foldlM hdn (List.range m.net.nodes.size) [] _ (h2, map) (fun j hj => List.mem_range.mp hj)
-      (nodeInv_phase1 h c m dn (h.names.getD c "") hw hc hdnlt (by rw [hdnf hdn, hcf])) hfold
+      (nodeInv_phase1 h c m dn (h.names.getD c "") hw hc (by rw [hdnf, hcf])) hfold
     simpa using this
   -- frame and wiring (as in `substituteCore_wire`), keeping the facts about the lines
   have f1 := frame_phase1 h c m dn ((h.net.node c).ins.filterMap id) ((h.net.node c).outs.filterMap id)
@@ -97,7 +103,7 @@ theorem substituteCore_certR (h : NNet) (c : Nat) (m : NNet) (sh : Shape) (dn : 
     exact (pinsOnly_phase3 m map h2).trans ((pinsOnly_connectIns m map _ _ _ hci).trans (pinsOnly_connectOuts m map _ _ _ hco))
   have hN5 : h5.net.nodes.size = h2.net.nodes.size := po.1.1
   have hnames5 : h5.names = h2.names := by subst e; rfl
-  have hwire := substituteCore_wire h c m sh hs hw hc dn hd hni h5 map dang he
+  have hwire := substituteCore_wireP h c m sh hw hc dn hni h5 map dang h2 net4 net5 id hil hol hfold hci hco e
   obtain ⟨fr, hmge, win, wout⟩ := hwire
   have hkind5 : ∀ x, (h5.net.node x).kind = (h2.net.node x).kind := fun x => po.1.2 x
   -- the certificate without well-formedness
@@ -123,7 +129,7 @@ theorem substituteCore_certR (h : NNet) (c : Nat) (m : NNet) (sh : Shape) (dn : 
           have := hkind5 d
           rw [iv.cell] at this
           simp [NodeD.isFork, this]
-        rw [this, hdnf hdn, hcf]
+        rw [this, hdnf, hcf]
       · have : h5.net.node d = h.net.node d := fr.node d hd' e1
         rw [this]
     · intro j x hx
@@ -140,7 +146,7 @@ theorem substituteCore_certR (h : NNet) (c : Nat) (m : NNet) (sh : Shape) (dn : 
       by_cases hjio : j ∈ m.net.io
       · have hc1 : m.net.io.contains j = true := by simpa using hjio
         have hne : j ≠ dn := fun e => hdn (e ▸ hjio)
-        simp only [hc1, Bool.not_true, Bool.false_eq_true, if_false, hne, false_or, hjio, not_true_eq_false]
+        simp only [hc1, Bool.not_true, Bool.false_eq_true, if_false, hne, false_and, false_or, hjio, not_true_eq_false]
         by_cases c1 : (m.net.node j).outs.length > 0 && (m.net.node j).ins.length > 0
         · simp only [c1, if_true, Option.isSome_some, true_iff]
           simp only [Bool.and_eq_true, decide_eq_true_eq] at c1
@@ -157,14 +163,20 @@ theorem substituteCore_certR (h : NNet) (c : Nat) (m : NNet) (sh : Shape) (dn : 
       · have hc1 : m.net.io.contains j = false := by simpa using hjio
         simp only [hc1, Bool.not_false, if_true, hjio, not_false_eq_true, true_or, iff_true]
         by_cases e1 : j = dn
-        · exact Or.inl e1
+        · exact Or.inl ⟨e1, e1 ▸ hj⟩
         · right
           have : (some dn != some j) = true := by simp [bne, Ne.symm e1]
           simp [this]
     · intro j x hx
       by_cases e1 : j = dn
       · subst e1
-        have : x = c := by rw [iv.mapDn] at hx; exact (Option.some.inj hx).symm
+        have hjm : j < m.net.nodes.size := by
+          apply Classical.byContradiction; intro hge
+          have : map.getD j none = none := by
+            simp only [Array.getD_eq_getD_getElem?]
+            rw [Array.getElem?_eq_none (by rw [iv.msize]; omega)]; rfl
+          rw [this] at hx; exact absurd hx (by simp)
+        have : x = c := by rw [iv.mapDn hjm] at hx; exact (Option.some.inj hx).symm
         subst this
         rw [hkind5, iv.cell, if_neg hdn]
       · obtain ⟨kn, ha, hk⟩ := iv.kind j x hx e1
@@ -437,6 +449,21 @@ theorem substituteCore_certR (h : NNet) (c : Nat) (m : NNet) (sh : Shape) (dn : 
     · exact hW
   · intro x _ hown
     rw [hnode5]; exact opF.trail x hown
+
+theorem substituteCore_certR (h : NNet) (c : Nat) (m : NNet) (sh : Shape) (dn : Nat)
+    (hw : WFr h) (mw : WF m) (hc : c < h.net.nodes.size) (hio : c ∉ h.net.io) (hcf : (h.net.node c).isFork = false)
+    (hs : implShape m = some sh) (hd : sh.des = some dn)
+    (hdn : dn ∉ m.net.io) (hnd : m.net.io.Nodup) (hps : ∀ p ∈ m.net.io, isSeqKind (m.net.node p).kind = false)
+    (hpf : ∀ p ∈ m.net.io, 0 < (m.net.node p).ins.length → 0 < (m.net.node p).outs.length → (m.net.node p).isFork = true)
+    (hni : NoIgnored m (sh.inPorts.zip (padTo (h.net.node c).ins sh.inPorts.length)))
+    (h5 : NNet) (map : Array (Option Nat)) (dang : List (Option Nat)) (he : substituteCore h c m = some (h5, map, dang)) :
+    SubstCert h c m sh dn map h5 ∧
+    (∀ x, x < h5.net.nodes.size → ownN h c x → noTrail (h5.net.node x).ins = true ∧ noTrail (h5.net.node x).outs = true) := by
+  obtain ⟨h2, net4, ren, net5, hil, hol, hfold, hci, hco, e⟩ := substituteCore_inv h c m sh hs h5 map dang he
+  obtain ⟨_, hdnf⟩ := implShape_des m mw sh dn hs hd
+  rw [hd] at hfold
+  exact substituteCore_certP h c m sh dn hw mw hc hio hcf hs (fun _ => hd) (hdnf hdn) hdn hnd hps hpf hni h5 map dang h2 net4 net5 ren
+    hil hol hfold hci hco e
 
 /-- the circuit `substituteCore` builds from a well-formed host is well-formed -/
 theorem substituteCore_cert (h : NNet) (c : Nat) (m : NNet) (sh : Shape) (dn : Nat)
